@@ -2606,6 +2606,9 @@ fn core_word_newline(xs: &mut State) -> Xresult {
 fn core_word_str_to_num(xs: &mut State) -> Xresult {
     let val = xs.pop_data()?;
     let base = xs.parse_fmt_flags(&val).unwrap_or_default().base() as u32;
+    if !(2..=36).contains(&base) {
+        return Err(Xerr::ErrorMsg(xeh_xstr!("number base out of range 2..36")));
+    }
     let s = val.to_xstr()?;
     if s.find('.').is_some() {
         let r: Xreal = s.parse().map_err(|_| Xerr::ParseError {
